@@ -322,19 +322,61 @@ func hasBlob(cells []value) (blobByte, bool) {
 	return blobByte{}, false
 }
 
-func eqCells(fr *frame, xs, ys []value) value {
-	bx, okx := hasBlob(xs)
-	by, oky := hasBlob(ys)
-	if okx || oky {
-		if okx && oky {
-			return eqBlob(fr, bx, by)
+func anyBlob(cells []value) bool {
+	for _, c := range cells {
+		if _, ok := c.(blobByte); ok {
+			return true
 		}
-		// an opaque blob never equals an ordinary byte string in the model
-		// (stated assumption: encodings are not guessed byte-wise)
+	}
+	return false
+}
+
+func eqCells(fr *frame, xs, ys []value) value {
+	if anyBlob(xs) || anyBlob(ys) {
+		// blobs stand for variable-length encodings: compare blob-by-blob and
+		// the plain runs between them (encodings are never guessed byte-wise)
 		if len(xs) == 0 || len(ys) == 0 {
 			return false
 		}
-		abort("unmodelled", "comparison of opaque blob with plain bytes")
+		var acc value = true
+		i, j := 0, 0
+		for i < len(xs) && j < len(ys) {
+			bx, okx := xs[i].(blobByte)
+			by, oky := ys[j].(blobByte)
+			if okx != oky {
+				fr.p.note("assumption used: an opaque encoding differs from given plain bytes")
+				return false
+			}
+			if okx {
+				acc = andValue(acc, eqBlob(fr, bx, by))
+				i++
+				j++
+			} else {
+				// plain run
+				i2, j2 := i, j
+				for i2 < len(xs) {
+					if _, b := xs[i2].(blobByte); b {
+						break
+					}
+					i2++
+				}
+				for j2 < len(ys) {
+					if _, b := ys[j2].(blobByte); b {
+						break
+					}
+					j2++
+				}
+				acc = andValue(acc, eqCells(fr, xs[i:i2], ys[j:j2]))
+				i, j = i2, j2
+			}
+			if b, ok := acc.(bool); ok && !b {
+				return false
+			}
+		}
+		if i != len(xs) || j != len(ys) {
+			return false
+		}
+		return acc
 	}
 	if len(xs) != len(ys) {
 		return false
@@ -402,8 +444,10 @@ func eqBlob(fr *frame, a, b blobByte) value {
 		}
 		return deepEq(fr, a.v, b.v)
 	}
-	abort("unmodelled", "blob equality without key")
-	return nil
+	if a.t == nil && b.t == nil {
+		return deepEq(fr, a.v, b.v)
+	}
+	return false
 }
 
 // deepEq compares two snapshots structurally (pointers followed).
